@@ -360,6 +360,10 @@ Section Steps.
       pose proof (transform_steps (sx st) r p rr) as E. destruct (transform cf (sx st) r p rr) as [[x1 ob] h]. exact E.
     - pose proof (encread_steps dump_fuel (sx st) r) as E. destruct (encread cf dump_fuel (sx st) r) as [x1 ok]. exact E.
     - pose proof (count_steps dump_fuel (sx st) r) as E. destruct (count cf dump_fuel (sx st) r) as [x1 c]. exact E.
+    - pose proof (steps_xs' (sx st) (PReaderRead (reg st r) k)) as E.
+      destruct (xs cf (sx st) (PReaderRead (reg st r) k)) as [x1 res]. exact E.
+    - pose proof (steps_xs' (sx st) (PReaderSeek (reg st r) off wh)) as E.
+      destruct (xs cf (sx st) (PReaderSeek (reg st r) off wh)) as [x1 res]. exact E.
   Qed.
 
   Lemma redump_steps : forall st, Steps (sx st) (sx (fst (redump cf st))).
